@@ -621,8 +621,8 @@ impl NetworkBehaviour for Behaviour {
                 // Ensure local eventual consistent reservation state matches handler (source of
                 // truth).
                 self.connections
-                    .get_mut(&event_source)
-                    .expect("valid connection")
+                    .entry(event_source)
+                    .or_default()
                     .insert(connection, Reservation::Active);
 
                 self.queued_actions.push_back(ToSwarm::GenerateEvent(
